@@ -88,6 +88,12 @@ pub fn scratch_path(stem: &str) -> String {
 }
 
 pub fn run_batch(prop: &str, sub: &str, cases: &[Vec<u32>], cpu_secs: u64, stack_kb: u64) -> Vec<ChildOutcome> {
+    run_batch_opt(prop, sub, cases, cpu_secs, stack_kb, false)
+}
+/// As `run_batch`; with `stop_at_first_failure` the outcomes end with the first one that is not `Ok` (the
+/// supervisor's isolation re-runs report one failing case per block, so the rest of the block need not be run).
+/// `cpu_secs` is a limit per case, not for the whole batch.
+pub fn run_batch_opt(prop: &str, sub: &str, cases: &[Vec<u32>], cpu_secs: u64, stack_kb: u64, stop_at_first_failure: bool) -> Vec<ChildOutcome> {
     let mut out: Vec<ChildOutcome> = Vec::with_capacity(cases.len());
     let exe = std::env::current_exe().expect("current_exe");
     let mut start = 0usize;
@@ -175,6 +181,9 @@ pub fn run_batch(prop: &str, sub: &str, cases: &[Vec<u32>], cpu_secs: u64, stack
         if start + done >= cases.len() {
             break;
         }
+        if stop_at_first_failure && out.iter().any(|o| !matches!(o, ChildOutcome::Ok)) {
+            break;
+        }
         // The child stopped before finishing the batch
         let culprit = last_started.unwrap_or(done);
         let sig = status.signal();
@@ -191,6 +200,9 @@ pub fn run_batch(prop: &str, sub: &str, cases: &[Vec<u32>], cpu_secs: u64, stack
         };
         let _ = culprit;
         out.push(outcome);
+        if stop_at_first_failure {
+            break;
+        }
         start = out.len();
     }
     out
@@ -206,8 +218,12 @@ pub fn child_main(args: &[String], lookup: &dyn Fn(&str, &str) -> Option<Box<sup
     let cpu: u64 = args[4].parse().unwrap_or(10);
     let stack_kb: u64 = args[5].parse().unwrap_or(8192);
     unsafe {
-        let lim = libc::rlimit { rlim_cur: cpu, rlim_max: cpu + 1 };
-        libc::setrlimit(libc::RLIMIT_CPU, &lim);
+        // soft limit only (moved forward before every case); the hard limit stays where it is
+        let mut lim: libc::rlimit = std::mem::zeroed();
+        if libc::getrlimit(libc::RLIMIT_CPU, &mut lim) == 0 {
+            lim.rlim_cur = cpu.min(lim.rlim_max);
+            libc::setrlimit(libc::RLIMIT_CPU, &lim);
+        }
         let core = libc::rlimit { rlim_cur: 0, rlim_max: 0 };
         libc::setrlimit(libc::RLIMIT_CORE, &core);
     }
@@ -231,6 +247,18 @@ pub fn child_main(args: &[String], lookup: &dyn Fn(&str, &str) -> Option<Box<sup
             for (i, c) in cases.iter().enumerate() {
                 writeln!(pf, "S {}", i).unwrap();
                 pf.flush().unwrap();
+                // the CPU limit is per case: move the soft limit to (CPU time used so far) + the allowance
+                unsafe {
+                    let mut ru: libc::rusage = std::mem::zeroed();
+                    if libc::getrusage(libc::RUSAGE_SELF, &mut ru) == 0 {
+                        let used = (ru.ru_utime.tv_sec + ru.ru_stime.tv_sec) as u64 + 1;
+                        let mut lim: libc::rlimit = std::mem::zeroed();
+                        if libc::getrlimit(libc::RLIMIT_CPU, &mut lim) == 0 {
+                            lim.rlim_cur = (used + cpu).min(lim.rlim_max);
+                            libc::setrlimit(libc::RLIMIT_CPU, &lim);
+                        }
+                    }
+                }
                 let mut ctx = Ctx::new(false);
                 let mut src = Src::new(c);
                 let r = guard(|| f(&mut src, &mut ctx)).and_then(|r| r);
